@@ -13,6 +13,7 @@ import (
 	"path/filepath"
 	"regexp"
 	"runtime"
+	"runtime/debug"
 	"sort"
 	"strconv"
 	"strings"
@@ -247,6 +248,49 @@ func c17Fixtures(seed uint64) *c17fx {
 			fr = fr[:len(fr)-2] // not closed: the first vertex is not repeated
 		}
 		fx.rings = append(fx.rings, c17Canary(withSpare(fr, 16)))
+	}
+	// degenerate point sets above the hull's 50-point switch: collinear on several
+	// slopes, coincident, two values - unsorted, so that an in-place sort shows
+	for i := 0; i < 7; i++ {
+		n := []int{60, 80, 70, 55, 64, 51, 120}[i]
+		f := make([]float64, 0, 2*n)
+		for k := 0; k < n; k++ {
+			t := float64(r.Range(-40, 40))
+			switch i {
+			case 0:
+				f = append(f, t, -2*t)
+			case 1:
+				f = append(f, 3, 4)
+			case 2:
+				f = append(f, float64(r.Intn(2)*5), float64(r.Intn(2)*5))
+			case 3:
+				f = append(f, t, 7)
+			case 4:
+				f = append(f, t, t)
+			case 5:
+				f = append(f, -2, t)
+			default:
+				f = append(f, 3*t, 2*t+1)
+			}
+		}
+		fx.flats = append(fx.flats, c17Canary(withSpare(f, 16)))
+		ring := starRing(r, 0, 0, 100, r.Range(3, 12))
+		fx.rings = append(fx.rings, c17Canary(withSpare(flatRing(ring, 2, nil), 16)))
+	}
+	// smooth tracks (small random steps): a simplification keeps a different
+	// small subset of the points of each
+	for i := 0; i < 12; i++ {
+		n := []int{200, 190, 170, 150, 120, 100, 90, 64, 40, 200, 130, 75}[i]
+		f := make([]float64, 0, 2*n)
+		x, y := float64(r.Range(-20, 20)), float64(r.Range(-20, 20))
+		for k := 0; k < n; k++ {
+			x += float64(r.Range(0, 3))
+			y += float64(r.Range(-2, 2))
+			f = append(f, x, y)
+		}
+		fx.flats = append(fx.flats, c17Canary(withSpare(f, 16)))
+		ring := starRing(r, 0, 0, 100, r.Range(3, 12))
+		fx.rings = append(fx.rings, c17Canary(withSpare(flatRing(ring, 2, nil), 16)))
 	}
 	for i := 0; i < 40; i++ {
 		fx.coords = append(fx.coords, geom.Coord(c17Canary(withSpare([]float64{float64(r.Range(-20, 20)), float64(r.Range(-20, 20)), float64(r.Range(-20, 20))}, 4))))
@@ -719,6 +763,7 @@ type c17Result struct {
 	Violations   []fw.Violation   `json:"violations"`
 	InputsHashed int64            `json:"inputs_hashed"`
 	Goroutines   int              `json:"goroutines"`
+	Bursts       int              `json:"bursts"`
 }
 
 // C17Worker is the child: phases 1-3 on one fixture set, at one GOMAXPROCS.
@@ -755,6 +800,68 @@ func C17Worker(seed uint64, procs int, tier string, out string) error {
 	}
 	if wkbcommon.MaxGeometryElements != maxElems || geojson.DefaultLayout != defLayout {
 		addV("global-modified", "a package-level variable (MaxGeometryElements / DefaultLayout) changed value", map[string]any{"phase": 1})
+	}
+	// phase 1b: bursts with the garbage collector switched off.  A function that
+	// recycles scratch memory (a sync.Pool, a package-level buffer) behaves
+	// differently only once the same buffer has been through many calls; in a
+	// harness that allocates as much as this one the collector empties every
+	// pool before that.  So each function is called 3300 times in a row,
+	// alternating between its largest and smallest fixtures, with no collection
+	// in between; every result must be the golden one.
+	for fi := range c17Registry {
+		fn := &c17Registry[fi]
+		n := fn.n(fx)
+		if n == 0 {
+			continue
+		}
+		// fixtures ordered by the size of their golden result, as a proxy for input size
+		order := make([]int, n)
+		for i := range order {
+			order[i] = i
+		}
+		sort.Slice(order, func(a, b int) bool { return len(golden[fi][order[a]]) < len(golden[fi][order[b]]) })
+		br := fw.NewRand(seed, "C17", "burst", fi)
+		old := debug.SetGCPercent(-1)
+		bad := -1
+		call := func(k int) {
+			if bad < 0 {
+				if got := c17Call(fn, fx, k); got != golden[fi][k] {
+					bad = k
+				}
+				res.Calls[fn.name]++
+			}
+		}
+		small := func() int { return order[br.Intn((n+3)/4)] }
+		big := func() int { return order[n/3+br.Intn(n-n/3)] }
+		for i := 0; i < 300; i++ {
+			switch br.Intn(4) { // drawn, not periodic: a period could stay in step with a recycling counter
+			case 0:
+				call(big())
+			case 1, 2:
+				call(small())
+			default:
+				call(br.Intn(n))
+			}
+		}
+		// mostly small inputs, now and then a large one: what a large call left in
+		// recycled memory beyond the reach of the small ones is still there when
+		// the next large call comes, hundreds of calls later
+		for i := 0; i < 3000; i++ {
+			if br.Chance(1, 24) {
+				call(big())
+			} else {
+				call(small())
+			}
+		}
+		debug.SetGCPercent(old)
+		if bad >= 0 {
+			addV("history-dependent", fmt.Sprintf("%s on fixture %d returned a different result in the middle of a burst of calls (no garbage collection in between) than when called first", fn.name, bad), map[string]any{"function": fn.name, "fixture": bad, "phase": "burst"})
+		}
+	}
+	res.Bursts = len(c17Registry)
+	if h := c17Hash(fx); h != h0 {
+		addV("argument-modified", "the shared inputs changed during the burst phase", map[string]any{"phase": "1b"})
+		h0 = h
 	}
 	// phase 2: race hunting - no monitor synchronisation between the barrier and the join
 	G, M := 64, 2000
@@ -1024,6 +1131,7 @@ func c17Special(p *fw.Parent) int {
 			sum.AddCounter("rounds", 1)
 			sum.AddCounter(fmt.Sprintf("rounds_gomaxprocs_%d", j.procs), 1)
 			sum.AddCounter("goroutines", int64(r.Goroutines+32))
+			sum.AddCounter("gc_off_bursts_of_3300_calls", int64(r.Bursts))
 			for _, v := range r.Violations {
 				sum.AddViolation(v)
 			}
